@@ -64,6 +64,12 @@ func flapScenario(r *rand.Rand) *scen.Scenario {
 		AlertGCInterval: gen.Pick(r, []time.Duration{time.Minute, 30 * time.Minute})}
 	l := model.Labels{"alertname": "A", "sev": gen.Pick(r, []string{"crit", "warn"})}
 	t0 := time.Duration(1+r.Intn(50))*time.Second + time.Duration(1+r.Intn(998))*time.Millisecond
+	// a third of the cases: the resolving update, the flush and the re-fire all fall into ONE wall-clock
+	// second (update times that differ by less than a second)
+	sameSecond := r.Intn(3) == 0
+	if sameSecond {
+		t0 = time.Duration(1+r.Intn(50))*time.Second + time.Duration(400+r.Intn(200))*time.Millisecond
+	}
 	end20 := 20 * time.Minute
 	d := func(x time.Duration) *time.Duration { return &x }
 	// fire (no startsAt: starts now, so the first flush is at t0+gw and ticks are t0+gw+k*gi)
@@ -72,6 +78,9 @@ func flapScenario(r *rand.Rand) *scen.Scenario {
 	k := 1 + r.Intn(3)
 	tickBefore := t0 + gw + time.Duration(k)*gi
 	t1 := tickBefore + gi/2
+	if sameSecond {
+		t1 = tickBefore + gi - 300*time.Millisecond
+	}
 	s.Ops = append(s.Ops, scen.Op{At: t1, Kind: "alerts", Alerts: []scen.PostSpec{{Labels: l, EndOff: d(0), Ann: model.Labels{"v": "resolve"}}}})
 	tick := tickBefore + gi // the flush that reports the resolution
 	// the receiver holds that delivery
@@ -83,6 +92,9 @@ func flapScenario(r *rand.Rand) *scen.Scenario {
 			scen.Fault{Receiver: "r0", Idx: 0, From: tick + 700*time.Millisecond, To: tick + 9*time.Second, Kind: "slow", Delay: delay})
 	}
 	off := gen.Pick(r, []time.Duration{time.Millisecond, delay / 2, delay - time.Millisecond, delay + time.Millisecond, -time.Millisecond, delay / 3})
+	if sameSecond {
+		off = gen.Pick(r, []time.Duration{time.Millisecond, 100 * time.Millisecond, 200 * time.Millisecond})
+	}
 	s.Ops = append(s.Ops, scen.Op{At: tick + off, Kind: "alerts", Alerts: []scen.PostSpec{{Labels: l, EndOff: d(end20), Ann: model.Labels{"v": "refire"}}}})
 	s.Ops = append(s.Ops, scen.Op{At: tick + delay + 1500*time.Millisecond, Kind: "probe"}, scen.Op{At: tick + gi + delay + 1500*time.Millisecond, Kind: "probe"})
 	s.Probes = false
